@@ -192,7 +192,6 @@ fn main() {
                     }
                 }
                 "evstart" => {
-                    ev = None;
                     ev_dir = PathBuf::from(p[1]);
                     let mut f = new_ev(ev_dir.clone(), p[2].parse().unwrap());
                     // first poll: runs up to the first sleep (creates the directory)
